@@ -21,7 +21,7 @@ CONSTANTS
   Flags = {1}
   GeneTraitFree = FALSE
   MaxMods = 1
-  ModActs = {21, 22, 23}
+  ModActs = {21, 22, 23, 25}
   ModEnabled = {TRUE, FALSE}
   OrgFits = {1, 5, 8, 9}
   OrgGens = {0, 3}
